@@ -7,13 +7,15 @@ HOOKS = {
     "add_only": True,
 }
 ENGINES = [
-    {"name": "hypothesis", "path": "vlib/api.py", "serves_properties": [], "kind_free_text": "Hypothesis 6.168 strategies driven through Ctx.run_cases (seeded from VERIF_SEED, database=None, deadline=None); failing cases are serialised as JSON replay files"},
-    {"name": "enumeration", "path": "vlib/api.py", "serves_properties": [], "kind_free_text": "itertools enumeration of finite domains through Ctx.run_enum, sharded over 16 processes"},
+    {"name": "hypothesis", "path": "vlib/api.py", "serves_properties": ["C01", "C02", "C03", "C04", "C05", "C06", "C07", "C09", "C10", "C11", "C12", "C13", "C14", "C15", "C18", "C20"], "kind_free_text": "Hypothesis 6.168 strategies driven through Ctx.run_cases (seeded from VERIF_SEED via crc32(seed, property, sub, shard), database=None, deadline=None, shrink phase in the thorough tier); failing cases are serialised as JSON replay files and re-executed without Hypothesis"},
+    {"name": "hypothesis-stateful", "path": "vlib/api.py", "serves_properties": ["C06", "C08", "C16", "C17", "C19"], "kind_free_text": "operation histories drawn by Hypothesis as JSON op-lists (what a RuleBasedStateMachine would draw) and interpreted by the oracle against a reference model of the state; invariants checked after every step; harness-side fault injection (C17); whole histories are the replay unit"},
+    {"name": "enumeration", "path": "vlib/api.py", "serves_properties": ["C04", "C12", "C13", "C14"], "kind_free_text": "itertools enumeration of finite index sets through Ctx.run_enum, sharded over 16 processes, reported as exhaustive_parts in the evidence"},
 ]
 NOTES = "All checks: ./check <ID> --tier quick|thorough; exit 0 held / 1 VIOLATION / 2 harness error. Code under test is /repo's working tree (sys.path[0]); the harness installs numpy.Inf=numpy.inf in its own process (NumPy 2 compatibility, DESIGN 0.1)."
 NA = {}
 CHECKS = {
  "C19": {
+  "engine": "hypothesis-stateful",
   "technique": "model-based property-based testing over a grammar of decay cards: Hypothesis-generated 3-/4-body cards (candidate lists, per-decay option mappings at any position, wrong-fermion-number candidates) are loaded in a history X, Y (same names, other quantum numbers), X, equivalent forms of X in one process; an independent enumeration of the declared decay tree with an independent (l,s) rule is the reference for chains, vertices, quantum numbers and partial waves; repeated loads must be identical; alias / $include-with-override / expanded / split-option / key-permuted forms must load to the same model; as_config() -> load must reproduce chains and quantum numbers",
   "text": "About 1200 card histories (8-10 loads each) per quick run, 4e4 thorough. Exploration level over a combinatorial grammar.",
   "note": "Trusted: the harness's enumeration of declared decays and its selection rule (the same rule as the C13 oracle), PyYAML for include files. After key permutation / candidate expansion chain and parameter-name sets are compared (the reference coupling depends on order by design); random initial couplings are not compared; the export does not carry l_list, so partial waves are not compared after the export round trip.",
